@@ -2,6 +2,7 @@ import Arp.Props.C19Trans
 import Arp.Props.C19Dbg
 import Arp.Props.C19Ovf
 import Arp.Props.C19Misc
+import Arp.Props.C19Misc2
 import Arp.Props.C11
 import Arp.Props.C12
 import Arp.Props.C14
